@@ -65,6 +65,9 @@ theorem fact_nil_entries_checked : Facts.C12.nilEntriesChecked = true := by deci
     position in the group): `takeLoopPre` counts taken members -/
 theorem fact_apply_max_counts_taken_members : Facts.C12.applyMaxCountsTakenMembers = true := by decide
 
+/-- `resolveCredential` returns the credential only when there is no `path_nested` left (no early return above that test) -/
+theorem fact_resolve_evaluates_path_nested_first : Facts.C12.resolveEvaluatesPathNestedBeforeReturningCredential = true := by decide
+
 /-- the configuration the model is run with is the repaired one -/
 theorem fact_cfg_fixed : Facts.C12.cfg = Cfg.fixed := by decide
 
@@ -292,6 +295,15 @@ theorem forged_mapping_rejected (re : Regex) (decode : Decoder) (pd : PD) (env :
   rw [fact_cfg_fixed] at h ⊢
   exact validate_spec Cfg.fixed rfl rfl re decode pd env sub m hraw hne h
 
+/-- a `path_nested` is ALWAYS evaluated — also below an entry whose own path already lands on a credential: the result of
+    a level with a nested level below it is the result of that nested level on the decoded value's map view (so
+    `forged_mapping_rejected`, which speaks about `resolveCredential` of the whole chain, covers forged nested paths) -/
+theorem path_nested_always_evaluated (decode : Decoder) (lv nx : Level) (rest : List Level) (v : J) (d : Decoded)
+    (h : resolveStep decode lv v = .ok d) :
+    resolveLevels decode (nx :: rest) lv v = resolveLevels decode rest nx (match d.asMap with | some m => m | none => .null) := by
+  rw [resolveLevels, h]
+  rfl
+
 /-- corollary (surplus): a descriptor map with two entries for one input descriptor is rejected -/
 theorem surplus_entry_rejected (re : Regex) (decode : Decoder) (pd : PD) (env : Envelope) (sub : List Mapping)
     (hraw : ∀ p ∈ env.presentations, ∀ c ∈ p, c.raw ≠ "") (hne : env.presentations ≠ [])
@@ -413,6 +425,10 @@ example : (pdMatch Cfg.fixed reDemo demoPD [demoDecoy, demoCred]).isOk = true :=
 example : (validate Cfg.fixed reDemo demoDecode demoPD demoEnv demoSub).isOk = true := by decide
 example : (validate Cfg.fixed reDemo demoDecode demoPD demoEnv (demoSub ++ demoSub)).cls = "err:resolve" := by decide
 example : (validate Cfg.fixed reDemo demoDecode demoPD demoEnv []).cls = "err:count" := by decide
+/-- corollary: an entry that lands on the selected credential but carries a dangling `path_nested` is rejected -/
+example : (validate Cfg.fixed reDemo demoDecode demoPD demoEnv
+    [{ top := { id := "d1", fmt := "jwt_vc", path := some vcPathSingle }, nested := [{ id := "d1", fmt := "jwt_vc", path := some { steps := [.key "nope"] } }] }]).cls
+    = "err:resolve" := by decide
 example : ((resolveFields Cfg.fixed reDemo demoPD [] [("d1", demoCred)]).isOk = true) := by decide
 example : Matches reDemo "string" none (some "^(.*)Credential$") (.arr [.str "VerifiableCredential", .str "AlphaCredential"]) :=
   .elem _ (.str "AlphaCredential") (by simp) (.str _ rfl trivial ⟨"Alpha", Or.inr (by decide)⟩)
